@@ -800,6 +800,88 @@ def real_moves(ctx, env, kind: int, n: int, td, how: str) -> List[List[int]]:
     return env._random_action(td).tolist()
 
 
+OBS_KEYS = ("rec_current", "rec_best", "cost_current", "cost_bsf", "reward", "visited_time")
+
+
+def td_diff(a, b, keys=None) -> List[str]:
+    """names of the entries of TensorDict `a` that are not bit-equal in `b` (missing counts as different)"""
+    out = []
+    for k in (keys if keys is not None else [k for k in a.keys() if k != "next"]):
+        if k not in b.keys() or a[k].shape != b[k].shape or not torch.equal(a[k], b[k]):
+            out.append(k)
+    return out
+
+
+def pure_step(ctx, env, kind: int, n: int, geos, td, mvA, how: str, what: str, opts):
+    """`env.step` from the state `td` with move `mvA`, plus the PURITY / BRANCHING probes (a state may be stepped twice,
+    stored, looked at afterwards — look-ahead, replay buffers):
+      (a) `_torchrl_mode=True`: `env.step(td)` may only ADD `next`; every tensor td held before must stay bit-equal
+          (default mode returns the SAME, updated td by contract: there the instance data must stay untouched and the
+          returned object must carry the successor);
+      (b) a second, different admitted move from the SAME state must give exactly what a fresh deep copy of that state
+          gives, and its bookkeeping must be right (cost_bsf = length of its rec_best).
+    Returns the successor of `mvA` (the episode continues on branch A)."""
+    B = td.batch_size[0]
+    torchrl = bool(opts.get("_torchrl_mode"))
+    mvB = real_moves(ctx, env, kind, n, td, how)
+    actA, actB = torch.tensor(mvA, dtype=torch.long), torch.tensor(mvB, dtype=torch.long)
+    td.set("action", actA)
+    before = td.clone()  # deep copy of the state the move is taken from
+    wit = {"kind": kind, "n": n, "opts": opts, "rec_current": before["rec_current"].tolist(), "rec_best": before["rec_best"].tolist(),
+           "move_A": mvA, "move_B": mvB, "pts": [as_geo(g)["pts"] for g in geos], "exp": [as_geo(g)["exp"] for g in geos]}
+    # reference: branch B from a fresh deep copy, BEFORE anything is stepped
+    ref = before.clone()
+    ref.set("action", actB)
+    refB = env.step(ref)["next"].clone()
+    out = env.step(td)
+    nextA = out["next"]
+    if torchrl:
+        changed = td_diff(before, td)
+        ctx.count("purity.torchrl-mode.input-td-checked")
+        if changed:
+            ctx.violation("purity:input-td-mutated",
+                          "env.step (torchrl mode) overwrote entries of the TensorDict it was given (the caller's pre-action state)",
+                          dict(wit, changed_entries=changed,
+                               rec_best_after_step=td["rec_best"].tolist(), successor_rec_best=nextA["rec_best"].tolist()))
+        # step the SAME state object a second time with another move
+        td.set("action", actB)
+        nextB = env.step(td)["next"]
+    else:
+        ctx.count("purity.default-mode.instance-data-checked")
+        changed = td_diff(before, nextA, keys=[k for k in before.keys() if k not in OBS_KEYS + ("i", "action", "action_record", "next")])
+        if changed or nextA is not td:
+            ctx.violation("purity:instance-data-mutated", "env.step changed instance data (entries `_step` does not own)",
+                          dict(wit, changed_entries=changed))
+        # the same state, deep-copied AFTER branch A was stepped: the saved copy must still be the pre-action state
+        again = before.clone()
+        again.set("action", actB)
+        nextB = env.step(again)["next"]
+    diff = td_diff(refB, nextB, keys=OBS_KEYS)
+    ctx.count("purity.branch-pairs")
+    if diff:
+        ctx.violation("purity:branch-differs-from-fresh-copy",
+                      "stepping a state a second time (another admitted move) does not give what a fresh deep copy of that state gives",
+                      dict(wit, differing_entries=diff, second_step={k: nextB[k].tolist() for k in diff},
+                           fresh_copy={k: refB[k].tolist() for k in diff}))
+    # bookkeeping of branch B on its own (Lean Spec cost)
+    geos_ = [as_geo(g) for g in geos]
+    lines = []
+    for r in range(B):
+        D = geom.D_ticks(geos_[r]["pts"])
+        lines.append(spec_lines(kind, n, [nextB["rec_best"][r].tolist()], D)[0])
+    for r, rep in enumerate(ctx.driver.ask_many(lines)):
+        try:
+            cb = to_ticks(nextB["cost_bsf"][r], geos_[r]["exp"])
+        except ValueError:
+            continue
+        if int(parse_fields(rep)["cost"]) != cb:
+            ctx.violation("bsf:cost-best", "on a second branch from the same state cost_bsf ≠ length of rec_best",
+                          dict(wit, row=r, cost_bsf=cb, length=parse_fields(rep)["cost"], rec_best=nextB["rec_best"][r].tolist()))
+    improvedA = bool((nextA["reward"] > 0).any())
+    ctx.count(f"purity.branch-pairs.first-branch-improving={int(improvedA)}")
+    return nextA
+
+
 def jump(ctx, env, kind: int, n: int, td) -> List[List[int]]:
     """`env.step_to_solution(td, solution)` — the `solution_to` branch of `_step` (used by n-step PPO with
     CL_best): per call either the stored best tours (the very tensor held by td), fresh valid tours, or the
@@ -874,8 +956,11 @@ def run_bsf(ctx):
                 mv_, td_ = jump(ctx, env, kind, n, td_)
             else:
                 mv_ = real_moves(ctx, env, kind, n, td_, how)
-                td_.set("action", torch.tensor(mv_, dtype=torch.long))
-                td_ = env.step(td_)["next"]
+                if ctx.rng.random() < 0.3:
+                    td_ = pure_step(ctx, env, kind, n, geos if tr_ is tr else geos2, td_, mv_, how, "bsf", opts)
+                else:
+                    td_.set("action", torch.tensor(mv_, dtype=torch.long))
+                    td_ = env.step(td_)["next"]
             for r_ in range(B_):
                 tr_.moves[r_].append(mv_[r_])
             tr_.snap(td_, False)
@@ -1101,7 +1186,10 @@ def run_policies(ctx):
                     ctx.violation(f"policy.{name}:move-not-admitted", "a bundled policy emitted a move outside the environment's mask",
                                   {"policy": name, "n": n, "kind": kind, "rec": cur[r], "move": mv[r], "step": t, "opts": opts})
                 tr.moves[r].append(mv[r])
-            td = env.step(td)["next"]
+            if ctx.rng.random() < 0.3:
+                td = pure_step(ctx, env, kind, n, geos, td, mv, "sampler" if kind != 2 else "mask", "policy", opts)
+            else:
+                td = env.step(td)["next"]
             tr.snap(td, False)
         judge_batch(ctx, kind, n, geos, tr, "policy")
         for r in range(B):
@@ -1349,6 +1437,11 @@ if _has("Rl4co/Props/C09/ImproveBsf.lean"):
         Theorem("Rl4co.Improve.Bsf.rewards_eq_decreases", "proved",
                 "C09 literally: the reward list is the list of consecutive differences of the best-so-far costs"),
         Theorem("Rl4co.Improve.Bsf.rewards_nonneg", "proved", "every reward of every run is ≥ 0"),
+        Theorem("Rl4co.Improve.Bsf.step_pure", "proved",
+                "the model's `_step` is a function of (state, move): running pre ++ as = running as from the state reached by pre"),
+        Theorem("Rl4co.Improve.Bsf.branching", "proved",
+                "two continuations from a common state: on EACH branch cost_bsf = length of that branch's rec_best and ≤ every tour "
+                "seen on that branch — the bookkeeping of a branch depends only on its own moves"),
         Theorem("Rl4co.Improve.Batch.batchStep_eq_map", "proved",
                 "the column-wise batched `_step` (masked in-place overwrite of rec_best) = per-row `_step`, any batch size, any tokens"),
         Theorem("Rl4co.Improve.Batch.batchRun_row", "proved",
